@@ -17,7 +17,7 @@ open Nsq.Model.Wire Nsq.Model.ByteOps Nsq.Gen.CodecFn Nsq.Tie.WireFn
 16-byte id and body: what the translated `WriteTo` leaves in an empty buffer, the translated
 `decodeMessage` reads back unchanged (no error, no panic); the count returned is its length. -/
 theorem translated_roundtrip (m : Msg) (hid : m.id.length = 16) :
-    ∃ out, writeTo bufferWriter [] m.ts m.attempts m.id m.body = .ret (out, BitVec.ofNat 64 out.length, "") ∧
+    ∃ out, writeTo m.id m.body m.ts m.attempts bufferWriter [] = .ret (out, BitVec.ofNat 64 out.length, "") ∧
       out.length = 26 + m.body.length ∧
       decodeMessage out = .ret (some (ofMsg m), "") := by
   refine ⟨encode m, ?_, Nsq.Proofs.Wire.encode_length m hid, ?_⟩
@@ -39,7 +39,7 @@ theorem translated_decode_total (b : Bytes) : ∃ v, decodeMessage b = .ret v :=
 theorem translated_decode_sound (b : Bytes) (x : decodeMessage_Message) (e : String)
     (h : decodeMessage b = .ret (some x, e)) :
     e = "" ∧ x.ID.length = 16 ∧
-    writeTo bufferWriter [] x.Timestamp x.Attempts x.ID x.Body = .ret (b, BitVec.ofNat 64 b.length, "") := by
+    writeTo x.ID x.Body x.Timestamp x.Attempts bufferWriter [] = .ret (b, BitVec.ofNat 64 b.length, "") := by
   rw [decodeMessage_eq] at h
   cases hd : decode b with
   | none => rw [hd] at h; simp at h
@@ -71,7 +71,7 @@ translated `SendFramedResponse` with frame type 2): the client reads one frame o
 data the translated `decodeMessage` turns back into the message. -/
 theorem translated_message_frame (m : Msg) (hid : m.id.length = 16) (rest : Bytes)
     (hb : m.body.length + 30 < 2147483648) :
-    ∃ enc n out k, writeTo bufferWriter [] m.ts m.attempts m.id m.body = .ret (enc, n, "") ∧
+    ∃ enc n out k, writeTo m.id m.body m.ts m.attempts bufferWriter [] = .ret (enc, n, "") ∧
       sendFramedResponse bufferWriter [] 2#32 enc = .ret (out, k, "") ∧
       readFrame (out ++ rest) = some ({ ftype := 2#32, data := enc }, rest) ∧
       decodeMessage enc = .ret (some (ofMsg m), "") := by
@@ -82,7 +82,7 @@ theorem translated_message_frame (m : Msg) (hid : m.id.length = 16) (rest : Byte
 /-! non-vacuity -/
 def demo : Msg := { ts := 0x1122334455667788#64, attempts := 0x0102#16, id := List.replicate 16 97, body := [1, 2, 3] }
 
-example : writeTo bufferWriter [] demo.ts demo.attempts demo.id demo.body =
+example : writeTo demo.id demo.body demo.ts demo.attempts bufferWriter [] =
     .ret ([0x11, 0x22, 0x33, 0x44, 0x55, 0x66, 0x77, 0x88, 1, 2] ++ List.replicate 16 97 ++ [1, 2, 3], 29#64, "") := by
   decide
 example : decodeMessage ([0x11, 0x22, 0x33, 0x44, 0x55, 0x66, 0x77, 0x88, 1, 2] ++ List.replicate 16 97 ++ [1, 2, 3]) =
